@@ -68,6 +68,10 @@ def gen(seed, tier):
                     yield {"prop": PROP, "op": op, "d": 0, "dflt": 0, "ops": [a, b, c], "kind": "free"}
                 yield {"prop": PROP, "op": "nand", "d": 0, "dflt": 0, "ops": [a, b, c], "kind": "free",
                        "form": ("right", "left", "hoisted")[k % 3]}
+                # leader-follower with the LEADER's rank declared uncompressed (own rank attributes or tensor)
+                lo0, sh0 = ((0, 3), (1, 3), (0, 2))[k % 3]
+                yield {"prop": PROP, "op": "lf", "d": 0, "dflt": 0, "ops": [a, b, c], "kind": "free",
+                       "fmt0": "U", "lo0": lo0, "sh0": sh0, "own0": bool(k % 2)}
     for i in range(nrand // 2):
         kk = rng.choice([2, 3, 4])
         d = rng.choice([0, 0, 1])
@@ -197,6 +201,19 @@ def _run_nary(case):
             tensors.append(tt)
             f = tt.getRoot()
         fibers.append(f)
+    if case.get("fmt0") == "U":
+        t0 = case["ops"][0]
+        if case.get("own0"):
+            f0 = ft.Fiber([c for c, _ in t0], [v for _, v in t0], default=dflt, shape=3,
+                          active_range=(case["lo0"], case["sh0"]))
+            f0.getRankAttrs().setFormat("U")
+        else:
+            tt0 = ft.Tensor.fromFiber(rank_ids=["K"], fiber=fibers[0], shape=[case["sh0"]], default=dflt)
+            tt0.setFormat("K", "U")
+            tensors.append(tt0)
+            f0 = tt0.getRoot()
+            case["lo0"] = 0
+        fibers[0] = f0
     if case.get("stale"):
         # leave saved positions behind, as an earlier unrelated search would
         for f in fibers:
